@@ -39,6 +39,11 @@ def conv_case(geo, rng, res):
     with torch.no_grad():
         for p in conv.parameters():
             p.copy_(torch.randn(p.shape, generator=g, dtype=torch.float64))
+    if rng.random() < 0.2:
+        # channels_last PARAMETERS (model.to(memory_format=torch.channels_last)): autograd then gives weight.grad NHWC strides
+        conv = conv.to(memory_format=torch.channels_last)
+        case['weights'] = 'channels_last'
+        res.count('channels_last_weight_cases')
     x = torch.randn(B, ci, H, W, generator=g, dtype=torch.float64) * torch.arange(1, ci + 1, dtype=torch.float64).view(1, -1, 1, 1)
     x = x + 0.01 * torch.arange(H * W, dtype=torch.float64).view(1, 1, H, W)  # position-distinguishing
     xin = x.clone().requires_grad_(True)
